@@ -81,6 +81,7 @@ class RegRef:
         self.a = {RX_ADDR_P0: b"\xe7" * 5, RX_ADDR_P1: b"\xc2" * 5, TX_ADDR: b"\xe7" * 5}
         self.p0_user = None  # address of the user's last open_rx_pipe(0, ...) not followed by close_rx_pipe(0)
         self.clobbered = False  # non-plus carrier-wave test ran: registers are documented to be off until `with`
+        self.unclob = frozenset()  # ... except those the application has explicitly programmed again since (whole-register setters)
 
     # ------------------------------------------------------------------ views
     def clone(self):
@@ -96,7 +97,7 @@ class RegRef:
         return d
 
     def key(self):
-        return (tuple(sorted(self.r.items())), tuple(sorted(self.a.items())), self.p0_user, self.clobbered)
+        return (tuple(sorted(self.r.items())), tuple(sorted(self.a.items())), self.p0_user, self.clobbered, tuple(sorted(self.unclob)))
 
     def sync_from(self, regfile):
         """adopt a register file observed on the radio (used only where the documentation declares the
@@ -387,6 +388,7 @@ class RegRef:
                 o._b(RF_SETUP, CONT_WAVE | PLL_LOCK, CONT_WAVE | PLL_LOCK)
                 if not o.plus:
                     o.clobbered = True  # docs: also changes crc, auto_ack, arc/ard, TX address (until `with`)
+                    o.unclob = frozenset()
             alt(None, f)
         elif name == "stop_carrier_wave":
             def f(o):  # "puts the nRF24L01 to sleep"
